@@ -564,6 +564,8 @@ func (m *metadataAPI) ShrinkISR(ctx context.Context, req *proto.ShrinkISROp) *st
 				leader, epoch, req.Leader, req.LeaderEpoch))
 	}
 
+	verifGate("metadata.shrink_isr.checked")
+
 	// Replicate ISR shrink through Raft.
 	op := &proto.RaftLog{
 		Op:          proto.Op_SHRINK_ISR,
@@ -614,6 +616,8 @@ func (m *metadataAPI) ExpandISR(ctx context.Context, req *proto.ExpandISROp) *st
 			fmt.Sprintf("Leader generation mismatch, current leader: %s epoch: %d, got leader: %s epoch: %d",
 				leader, epoch, req.Leader, req.LeaderEpoch))
 	}
+
+	verifGate("metadata.expand_isr.checked")
 
 	// Replicate ISR expand through Raft.
 	op := &proto.RaftLog{
